@@ -82,6 +82,9 @@ def cases(tier, seed):
                 for aij in AIJ0:
                     for axis in AXES:
                         out.append({"kind": "ldot", "pair": pair, "A_IJ0": aij, "angle0": 0.3, "axis": axis, "seed": seed})
+    for pair in ("Fm-RB", "RB-Fm"):
+        for axis in AXES:
+            out.append({"kind": "ldot_frame", "pair": pair, "axis": axis, "seed": seed})
     # E4 cross-check of the reference automaton by TLC + conformance replay (DESIGN 1, E4)
     for N, K, axis, a0 in ([(16, 3, 2, 0.3)] if tier == "quick" else [(16, 3, 2, 0.3), (12, 2, 0, -2.0), (20, 4, 1, 7.0), (24, 5, 2, 0.0)]):
         out.append({"kind": "tlc", "N": N, "K": K, "B": 2 * N + 8, "axis": axis, "angle0": a0})
@@ -544,6 +547,55 @@ def check_ldot(case):
     return {"fails": _dedup(fails), "nontrivial": evals >= 10, "evals": evals, "stats": stats, "outcome": "ldot"}
 
 
+def check_ldot_frame(case):
+    """angle rate with a prescribed-motion Frame (orientation A(t) turning about an axis that is NOT the joint axis) as first or
+    second partner, evaluated at several times: the joint axis carried by the frame moves in space (seeded C25-i)"""
+    from cardillo import System
+
+    seed, axis = case["seed"], case["axis"]
+    frame_first = case["pair"] == "Fm-RB"
+    system = System(t0=J.T0)
+    fr = J.make_subsystem("Fm", seed, 1)
+    rb = J.make_subsystem("RB", seed, 2)
+    f = fr._verif_fns
+    A_IJ0 = J.generic_rotation(seed, 2)
+    r_OJ0 = ab.generic_vec(seed, 3, 3, 0.6)
+    s1, s2 = (fr, rb) if frame_first else (rb, fr)
+    joint = J.make_joint("Revolute", axis, s1, s2, r_OJ0=r_OJ0.copy(), A_IJ0=A_IJ0.copy(), angle0=0.3)
+    system.add(fr, rb, joint)
+    J.assemble(system)
+    q_init, _ = J.raw_q0(system)
+    A_rb0 = ab.quat_to_A(np.asarray(rb.q0, float)[3:])
+    fails, stats, evals = [], {}, 0
+    nu = system.nu
+    u_letters = [("generic0", ab.weyl(seed, 70, nu, -1.5, 1.5)), ("zero", np.zeros(nu))] + [(f"e{i}", np.eye(nu)[i]) for i in range(3, nu)]
+    qs = [("q0", q_init.copy())]
+    qg = q_init.copy()
+    qg[rb.my_qDOF] = np.concatenate([ab.generic_vec(seed, 81, 3, 1.0), ab.generic_quat(seed, 86)])
+    qs.append(("off-manifold", qg))
+    for t in (J.T0, J.T0 + 0.37, J.T0 + 1.1):
+        Af = f.A(t)
+        Om_f = ab.unskew(f.A_t(t) @ Af.T)  # inertial angular velocity of the frame
+        for qname, q in qs:
+            A2 = ab.quat_to_A(q[rb.my_qDOF][3:])
+            for uname, u in u_letters:
+                Om_b = A2 @ u[rb.my_uDOF][3:]
+                if frame_first:
+                    e_c1 = (Af @ f.A(J.T0).T @ A_IJ0)[:, axis]   # joint axis carried by the frame
+                    ref = float((Om_b - Om_f) @ e_c1)
+                else:
+                    e_c1 = (A2 @ A_rb0.T @ A_IJ0)[:, axis]       # joint axis carried by the body
+                    ref = float((Om_f - Om_b) @ e_c1)
+                got = float(joint.l_dot(t, q[joint.qDOF], u[joint.uDOF]))
+                evals += 1
+                err = abs(got - ref)
+                stats["max_err_ldot_frame"] = max(stats.get("max_err_ldot_frame", 0.0), err)
+                if not err <= 1e-10 * max(1.0, abs(ref)):
+                    fails.append({"site": "Revolute.l_dot vs relative angular velocity about the axis [prescribed-motion frame partner]",
+                                  "msg": f"{got!r} vs {ref!r} at t={t:.3f}, {qname}, u={uname}", "data": {"t": t, "q": qname, "u": uname, "got": got, "ref": ref, "pair": case["pair"]}})
+    return {"fails": _dedup(fails), "nontrivial": evals >= 10, "evals": evals, "stats": stats, "outcome": "ldot_frame"}
+
+
 def check_tlc(case):
     """E4: TLC explores models/RevoluteTracker.tla; every model edge the implementation can take is replayed on a real joint"""
     from vp.scen import tlc_revolute
@@ -563,6 +615,8 @@ def check_tlc(case):
 
 
 def check(case):
+    if case["kind"] == "ldot_frame":
+        return check_ldot_frame(case)
     if case["kind"] == "tlc":
         return check_tlc(case)
     if case["kind"] == "lattice":
